@@ -73,16 +73,21 @@ def derived_schema(ver):
  <xs:simpleType name="qn23"><xs:restriction base="qnames"><xs:minLength value="2"/><xs:maxLength value="3"/></xs:restriction></xs:simpleType>
  <xs:simpleType name="qn2"><xs:restriction base="qn23"><xs:length value="2"/></xs:restriction></xs:simpleType>
  <xs:simpleType name="tok23"><xs:restriction><xs:simpleType><xs:list itemType="xs:NMTOKEN"/></xs:simpleType><xs:minLength value="2"/><xs:maxLength value="3"/></xs:restriction></xs:simpleType>
+ <xs:simpleType name="strs2"><xs:restriction><xs:simpleType><xs:list itemType="xs:string"/></xs:simpleType><xs:length value="2"/></xs:restriction></xs:simpleType>
  <xs:simpleType name="durs"><xs:list itemType="xs:duration"/></xs:simpleType>
  <xs:simpleType name="stamps"><xs:list itemType="xs:dateTime"/></xs:simpleType>
+ <xs:simpleType name="fmax"><xs:restriction base="xs:float"><xs:maxInclusive value="10"/></xs:restriction></xs:simpleType>
+ <xs:simpleType name="dpos"><xs:restriction base="xs:double"><xs:minExclusive value="0"/></xs:restriction></xs:simpleType>
  <xs:simpleType name="money"><xs:restriction base="xs:decimal"><xs:totalDigits value="4"/><xs:fractionDigits value="2"/></xs:restriction></xs:simpleType>
  <xs:element name="small" type="small"/><xs:element name="smaller" type="smaller"/><xs:element name="word" type="word"/><xs:element name="en" type="en"/>
  <xs:element name="ilist" type="ilist"/><xs:element name="ilist2" type="ilist2"/><xs:element name="u" type="u"/><xs:element name="money" type="money"/>
  <xs:element name="durs" type="durs"/><xs:element name="stamps" type="stamps"/><xs:element name="ien" type="ien"/><xs:element name="qn23" type="qn23"/><xs:element name="qn2" type="qn2"/><xs:element name="tok23" type="tok23"/>
  <xs:element name="code3" type="code3"/><xs:element name="price2" type="price2"/><xs:element name="pt3" type="pt3"/><xs:element name="umix" type="umix"/><xs:element name="twoWords" type="twoWords"/><xs:element name="lead" type="lead"/>
- <xs:element name="twoShort" type="twoShort"/><xs:element name="twoShortA" type="twoShortA"/></xs:schema>''')
+ <xs:element name="strs2" type="strs2"/><xs:element name="fmax" type="fmax"/><xs:element name="dpos" type="dpos"/><xs:element name="twoShort" type="twoShort"/><xs:element name="twoShortA" type="twoShortA"/></xs:schema>''')
 
 
+def items(t): return [x for x in t.split(' ') if x]
+def isfloat(t): return re.fullmatch(r'([+-]?([0-9]+(\.[0-9]*)?|\.[0-9]+)([Ee][+-]?[0-9]+)?)|-?INF|NaN', t) is not None
 def isint(t): return re.fullmatch(r'[+-]?[0-9]+', t) is not None
 
 
@@ -101,9 +106,14 @@ REF = {
     'en': lambda t: t in ('ab', 'abcd'),
     'ien': lambda t: isint(t) and int(t) in (1, 12),
     # the length facets of a LIST count its items, whatever the item type (only atomic QName / NOTATION values are exempt from them)
-    'qn23': lambda t: 2 <= len(t.split()) <= 3 and all(re.fullmatch(r'[A-Za-z_][\w.-]*', x) for x in t.split()),
-    'qn2': lambda t: len(t.split()) == 2 and all(re.fullmatch(r'[A-Za-z_][\w.-]*', x) for x in t.split()),
-    'tok23': lambda t: 2 <= len(t.split()) <= 3 and all(re.fullmatch(r'[\w.:-]+', x) for x in t.split()),
+    # (items are separated by XML whitespace only: after collapsing, by single spaces - a no-break space is character data of an item)
+    'qn23': lambda t: 2 <= len(items(t)) <= 3 and all(re.fullmatch(r'[A-Za-z_][\w.-]*', x) for x in items(t)),
+    'qn2': lambda t: len(items(t)) == 2 and all(re.fullmatch(r'[A-Za-z_][\w.-]*', x) for x in items(t)),
+    'tok23': lambda t: 2 <= len(items(t)) <= 3 and all(re.fullmatch(r'[\w.:-]+', x) for x in items(t)),
+    'strs2': lambda t: len(items(t)) == 2,
+    # NaN is incomparable: it satisfies no bound facet
+    'fmax': lambda t: isfloat(t) and t != 'NaN' and float(t.replace('INF', 'inf')) <= 10,
+    'dpos': lambda t: isfloat(t) and t != 'NaN' and float(t.replace('INF', 'inf')) > 0,
     'code3': lambda t: re.fullmatch(r'[0-9]{3}', t) is not None,
     'price2': lambda t: re.fullmatch(r'[0-9]+\.[0-9]{2}', t) is not None,
     'pt3': lambda t: re.fullmatch(r'[0-9]( [0-9]){2}', t) is not None,
@@ -126,13 +136,13 @@ REF = {
 UNION_DECODE = lambda t: int(t) if REF['small'](t) else (t in ('true', '1')) if t in ('true', 'false', '1', '0') else t
 DVALUES = ['P1Y0M PT60S', 'P13M  P1DT24H', 'PT1.50S', 'P1Y', '2020-01-01T24:00:00 2020-01-01T10:00:00+00:00', '2020-01-01T00:00:00.120', '2020-01-01T00:00:00Z']
 VALUES = ['ab cd', 'ab  cd', ' ab cd', 'ab cd ', '  ab', ' ab', '12', ' 12 ', 'ab', '0', '5', '9', '10', '99', '100', '101', '-1', '+7', '07', 'ab', 'a', 'abc', 'abcd', 'abcde', 'true', 'false', '1', '', '1 2', '1 2 3', '100 0', '101 1', 'x y',
-          '12.34', '1.234', '123.4', '12345', '0.10', '00012.30', '.5', '1e1', 'a b', '9' * 400, '012', '-' + '9' * 330, 'a b c d', 'ab cd ef', 'x']
+          '12.34', '1.234', '123.4', '12345', '0.10', '00012.30', '.5', '1e1', 'a b', '9' * 400, '012', '-' + '9' * 330, 'a b c d', 'ab cd ef', 'x', 'a\xa0b c', 'a\xa0b', 'a\u2003b c d', 'NaN', 'INF', '-INF', '10.5', '1e1', '0.0']
 
 
 def eval_derived(args):
     ver, name, v = args
     s = _S.setdefault(ver, derived_schema(ver))
-    t = v if name not in ('word', 'en', 'ien', 'qn23', 'qn2', 'tok23', 'ilist', 'ilist2', 'code3', 'price2', 'pt3', 'u', 'umix', 'small', 'smaller', 'money', 'durs', 'stamps') else re.sub(r' +', ' ', re.sub(r'[\t\n\r]', ' ', v)).strip(' ')
+    t = v if name not in ('word', 'en', 'ien', 'qn23', 'qn2', 'tok23', 'ilist', 'ilist2', 'code3', 'price2', 'pt3', 'u', 'umix', 'small', 'smaller', 'money', 'durs', 'stamps', 'strs2', 'fmax', 'dpos') else re.sub(r' +', ' ', re.sub(r'[\t\n\r]', ' ', v)).strip(' ')
     exp = REF[name](t)
     doc = f'<{name}>{v}</{name}>'
     try: got = s.is_valid(doc)
